@@ -14,6 +14,7 @@ import json
 from . import common as C
 from . import core as K
 from . import methods as M
+from . import methodbodies as MB
 
 
 def run(tier, work):
@@ -54,11 +55,56 @@ def run(tier, work):
                 v.count("not_reproduced_blackbox")
                 continue
             v.fail(key, what + " in program %r" % job["files"]["t.rb"], C.job_files_for_replay(job), detail={"out": rr.get("out")})
+    # second universe: one method with positional / defaulted / keyword parameters, explicit return, class-specific
+    # operations, call sites before / after the definition and inside another method (spec/MethodBodies.tla)
+    bprogs = MB.emit(work, stats, 2)
+    if tier == "quick":
+        bprogs = rng.sample(bprogs, 4000)
+    else:
+        bprogs = bprogs + rng.sample(MB.emit(work, stats, 3), 40000)
+    bjobs, bmeta = [], []
+    for i, p in enumerate(bprogs):
+        lines, info = MB.render(p)
+        hints = i % 2 == 0
+        info["with_hints"] = hints
+        bjobs.append({"files": {"t.rb": "\n".join(lines) + "\n"}, "args": ["t.rb", "-i"] if hints else ["t.rb"]})
+        bmeta.append(info)
+    wr = C.Runner(work, "worker")
+    try:
+        bresults = wr.run_many(bjobs)
+    finally:
+        wr.close()
+    for p, info, job, res in zip(bprogs, bmeta, bjobs, bresults):
+        if res.get("skipped"):
+            v.count("skipped_jobs")
+            continue
+        if res.hung or res.crashed or res.get("exit") != 0:
+            key = "crash-or-hang:%s@%s" % (res.get("cls"), res.get("site"))
+            if not v.seen(key):
+                v.fail(key, "method program fails", C.job_files_for_replay(job))
+            else:
+                v.again(key)
+            continue
+        stats["runs"] += 1
+        checked += 2 + len(p["sites"])
+        for key, what in MB.judge(p, info, res["out"]):
+            if v.seen(key):
+                v.again(key)
+                continue
+            rr = C.confirm_alone(work, job, runs=1)[0]
+            if not any(k == key for k, _ in MB.judge(p, info, rr.get("out") or "")):
+                v.count("not_reproduced_blackbox")
+                continue
+            v.fail(key, what + " in program %r" % job["files"]["t.rb"], C.job_files_for_replay(job), detail={"out": rr.get("out")})
+    v.sample({"program": MB.render(bprogs[0])[0], "ArgT": bprogs[0]["argT"], "RetT": bprogs[0]["retT"]})
     v.sample({"program": M.render(progs[0])[0], "ParamT": progs[0]["param"], "RetT": progs[0]["ret"]})
     cov = {"states": stats["states"], "transitions": stats["transitions"], "traces_validated_against_impl": stats["runs"],
-           "probes_compared": checked, "programs": len(progs), "exhaustive": tier != "quick",
+           "probes_compared": checked, "programs": len(progs), "method_body_programs": len(bprogs), "exhaustive": tier != "quick",
            "rule": "every Methods.tla program: 2-3 methods with one parameter, body returning the parameter / a literal / another "
-                   "method's result (acyclic), 1-3 top-level call sites with Integer/String/Float arguments, every definition order"}
+                   "method's result (acyclic), 1-3 top-level call sites with Integer/String/Float arguments, every definition order; "
+                   "every MethodBodies.tla program: one method with positional / defaulted / keyword parameters, body = parameter / second "
+                   "parameter / explicit return / class-specific operation, 1-3 call sites before / after the definition or inside another "
+                   "method; parameter probes, result probes, diagnostics of the operation and the -i signature hint judged"}
     return v.finish("model_checking", cov, assumptions=[
         "parameter types must COVER the union of the call-site types (a superset is accepted), results must EQUAL the model's"])
 
